@@ -16,7 +16,7 @@ CHK_B_ADJ = """        state_back = state.copy()
         if rev_diff > self.reverse_check_tol:"""
 
 MUTANTS = [
-    m("c02-no-copy", "C02", "R1", "        state = state.copy()\n        self._step(state, state.dir * self.step_size)", "        self._step(state, state.dir * self.step_size)"),
+    m("c02-no-copy", "C02", "R1", "        state = state.copy()\n        try:\n            self._step(state, state.dir * self.step_size)", "        try:\n            self._step(state, state.dir * self.step_size)"),
     m("c02-drop-dir", "C02", "R2", "self._step(state, state.dir * self.step_size)", "self._step(state, self.step_size)"),
     m("c02-leapfrog-asym", "C02", "R3", "        self.system.h1_flow(state, 0.5 * time_step)\n        self.system.h2_flow(state, time_step)\n        self.system.h1_flow(state, 0.5 * time_step)", "        self.system.h1_flow(state, 0.25 * time_step)\n        self.system.h2_flow(state, time_step)\n        self.system.h1_flow(state, 0.75 * time_step)"),
     # A B C* C B* A* is a different but still symmetric scheme: must stay silent
@@ -48,7 +48,7 @@ MUTANTS = [
     m("c02-raise-wrong-class", "C02", "R4", "                raise NonReversibleStepError(msg)\n\n    def _step(self, state: ChainState, time_step: float) -> None:\n        self._step_a(state, 0.5 * time_step)\n        self._step_b(state, time_step)", "                raise ValueError(msg)\n\n    def _step(self, state: ChainState, time_step: float) -> None:\n        self._step_a(state, 0.5 * time_step)\n        self._step_b(state, time_step)"),
     # twins
     m("c02-twin-half", "C02", None, "        self.system.h1_flow(state, 0.5 * time_step)\n        self.system.h2_flow(state, time_step)\n        self.system.h1_flow(state, 0.5 * time_step)", "        half = time_step / 2\n        self.system.h1_flow(state, half)\n        self.system.h2_flow(state, 2 * half)\n        self.system.h1_flow(state, half)", twin=True),
-    m("c02-twin-new-name", "C02", None, "        state = state.copy()\n        self._step(state, state.dir * self.step_size)\n        return state", "        new_state = state.copy()\n        self._step(new_state, new_state.dir * self.step_size)\n        return new_state", twin=True),
+    m("c02-twin-new-name", "C02", None, "        state = state.copy()\n        try:\n            self._step(state, state.dir * self.step_size)\n", "        new_state = state.copy()\n        state = new_state\n        try:\n            self._step(new_state, new_state.dir * self.step_size)\n", twin=True),
     m("c02-twin-check-ge", "C02", None, CHK_B_ADJ, CHK_B_ADJ.replace("rev_diff > self.reverse_check_tol", "self.reverse_check_tol < rev_diff"), twin=True),
     # ---- C06
     m("c06-undo-F2", "C06", "R1", "        self._step_a(state, 0.5 * time_step)\n        self._step_b_fwd(state, 0.5 * time_step)", "        self._step_a(state, time_step)\n        self._step_b_fwd(state, 0.5 * time_step)", key="ImplicitLeapfrogIntegrator"),
